@@ -470,7 +470,7 @@ static int step(int e)
             if (!ok) { mc_fail("lss-baud-after-reset", "Node.Baudrate is %u after the reset; stored bit rate %u, pending %u, active before %u", Node.Baudrate, M.pers_baud, M.pend_baud, M.act_baud); break; }
             if (o_drvbaud && DRV.baud != Node.Baudrate) { mc_fail("lss-baud-after-reset", "the CAN driver still runs at %u although Node.Baudrate is %u after the reset", DRV.baud, Node.Baudrate); break; }
             M.act_node = got; M.act_baud = Node.Baudrate; M.alt_baud = 0;
-            M.nmt = N_PREOP; M.sel |= 1; M.idn |= 1;               /* sequence progress across a reset: kept or dropped */
+            M.nmt = N_PREOP; M.sel = 1; M.idn = 1;                 /* a reset restarts the LSS slave like a fresh start (C20): sequences in progress are dropped */
             side_probe_after_reset(old_pn, old_pb);
         }
         break; }
